@@ -14,10 +14,11 @@ HIST_W = {"eval": 2, "set_ref": 2, "set_formula": 1.5, "new_cells": 2, "del_cell
 def swarm(rng):
     cfg = c02.swarm(rng)
     cfg.update({"n_spaces": rng.choice([2, 3, 4]), "n_cells": rng.choice([2, 3, 4]), "n_refs": rng.choice([1, 2, 3]),
-                "n_hist": rng.choice([0, 6, 12]), "p_objref": rng.choice([0.0, 0.3]), "p_fnref": rng.choice([0.0, 0.15]),
+                "n_hist": rng.choice([0, 6, 12]), "p_objref": rng.choice([0.0, 0.3]), "p_mirror": 0.4, "p_fnref": rng.choice([0.0, 0.15]),
                 "p_sformula": rng.choice([0.3, 0.6]), "p_uncached": rng.choice([0.0, 0.3]), "recalc": False,
                 "max_depth": rng.choice([2, 3]), "n_queries": rng.choice([8, 14, 20]), "export_refs_in_formula": False,
-                "p_item_eval": 0.6, "simple_cond": True, "export_subset": True, "split_ref_names": True, "clash": False})
+                "p_item_eval": 0.75, "simple_cond": True, "export_subset": True, "split_ref_names": True, "clash": False, "ancestor_params": True, "nested_item_eval": True,
+                "prefer_read": rng.choice([["ancestor_param", "space_param"], ["attr_model", "attr_other"], []])})
     if cfg["p_objref"]:
         # relative references in ItemSpaces are a documented limitation of the exporter: object-valued references are
         # either absolute, or the model has no parameter formulas at all
@@ -69,7 +70,7 @@ class C15(PropBase):
             "must agree (formula execution counts are reported, not judged); non-trivial = a query inside an ItemSpace or on an "
             "inherited cells was compared; distinct = distinct event-log digest")
     tiers = {"quick": {"budget_s": 45, "timeout_s": 120}, "thorough": {"budget_s": 900, "timeout_s": 240}}
-    reach_probes = ["reach/packages_compared", "reach/queries_compared", "reach/item_queries"]
+    reach_probes = ["reach/packages_compared", "reach/queries_compared", "reach/item_queries", "reach/nested_item_queries"]
     assumptions = ["documented export subset only: no object-valued references, no scalar-cells coercion, no IOSpecs other "
                    "than none; parameter formulas return None (returned references / base switching are silently ignored by "
                    "the exporter: known finding)", "exceptions are compared by class"]
@@ -174,6 +175,8 @@ class C15(PropBase):
             item = any(not isinstance(s, str) for s in q["loc"])
             if item:
                 ctx.count("item_queries", 1, "reach")
+                if sum(1 for s in q["loc"] if not isinstance(s, str)) > 1:
+                    ctx.count("nested_item_queries", 1, "reach")
                 ctx.nontrivial = True
             got = {"st": "ok", "val": norm(res[1])} if res[0] == "ok" else {"st": "rej", "exc": res[1]}
             if exp.get("st") != "ok":
@@ -189,6 +192,22 @@ class C15(PropBase):
         log_pkg = sorted(map(repr, [x for x in out.get("log", []) if x[1] != "_formula"]))
         log_model = [x for x in log_model if "'_formula'" not in x]
         ctx.count("exec_multiset_equal" if log_model == log_pkg else "exec_multiset_differs", 1, "reach")
+
+    def simplify(self, doc):
+        """Candidates with fewer queries in the export step (halves, then single removals)."""
+        steps = doc["steps"]
+        for k, st in enumerate(steps):
+            if st.get("op") != "export" or len(st["queries"]) < 2:
+                continue
+            qs = st["queries"]
+            n = len(qs)
+            cuts = [(0, n // 2), (n // 2, n)] if n > 3 else []
+            cuts += [(i, i + 1) for i in range(n)]
+            for a, b in cuts:
+                keep = [i for i in range(n) if not (a <= i < b)]
+                remap = {old: new for new, old in enumerate(keep)}
+                st2 = dict(st, queries=[qs[i] for i in keep], order=[remap[i] for i in st["order"] if i in remap])
+                yield dict(doc, steps=steps[:k] + [st2] + steps[k + 1:])
 
     def features(self, ctx, mach):
         """Which shapes of the documented subset the exported model contained (reach counters per package)."""
